@@ -5,10 +5,14 @@ package checks
 import (
 	"encoding/json"
 	"fmt"
+	"path/filepath"
 	"strconv"
 	"strings"
+	gotime "time"
 
 	"github.com/jotaen/klog/klog"
+	"github.com/jotaen/klog/klog/app/cli"
+	cliutil "github.com/jotaen/klog/klog/app/cli/util"
 	"github.com/jotaen/klog/klog/service"
 
 	"klogverif/clidrv"
@@ -129,20 +133,25 @@ func init() {
 		Rule: "F1 = one record with every sequence of <=3 entries over a menu of 11 durations, all 66 valid ordered pairs of 11 boundary times (<0:00 .. 23:59>, 24:00 spellings, 12h) and 5 open ranges; " +
 			"F2 = two records (same date, ascending, descending with mixed separators) x <=2 entries from 12 x 4 should-totals each; thorough adds three records and every shifted time as range start; " +
 			"F3 = --now: two records dated {today, yesterday, 2 days ago, tomorrow}^2 with an open range starting at 10 boundary times x 5 clock readings x 3 calendar days (month/leap/year boundary). " +
+			"F4 = `today --now --diff --follow` on every F3 document and clock over a history of 3 refreshes (+45 min, +13 h 45 min; file unchanged, or swapped for another document and back): each refresh must equal a fresh one-shot run at that instant. " +
 			"non-trivial = reference-valid with at least one entry; distinct by text (+clock) hash.",
 		Assumptions: []string{
 			"specmodel evaluator in integer minutes; the documents' denotation comes from specmodel.Parse (cross-checked by C01)",
 			"observed through service.Total/ShouldTotalSum/Diff on the parsed records for every document; every 96th (quick) / 16th (thorough) document and all of F3 also through `klog total --diff --decimal`, `klog json` and `klog print --with-totals` via the complete CLI",
 		},
 		Units: func(t fw.Tier) int {
-			return len(planSpans(append(famSizes(c02Families(t)), c02NowCount()), c02Chunk))
+			return len(planSpans(append(famSizes(c02Families(t)), c02NowCount(), 2*c02NowCount()), c02Chunk))
 		},
 		RunUnit: func(c *fw.Ctx, unit int) {
 			fs := c02Families(c.Tier)
-			sp := planSpans(append(famSizes(fs), c02NowCount()), c02Chunk)[unit]
+			sp := planSpans(append(famSizes(fs), c02NowCount(), 2*c02NowCount()), c02Chunk)[unit]
 			for i := sp.lo; i < sp.hi; i++ {
 				if sp.fam == len(fs) {
 					c02Now(c, i)
+					continue
+				}
+				if sp.fam == len(fs)+1 {
+					c02Follow(c, i)
 					continue
 				}
 				text, _, _ := fs[sp.fam].at(i)
@@ -156,6 +165,8 @@ func init() {
 			}
 			if cs.Fam == "F3" {
 				c02Now(c, cs.I)
+			} else if cs.Fam == "F4" {
+				c02Follow(c, cs.I)
 			} else {
 				c02Text(c, cs.Fam, cs.I, string(cs.Text), true)
 			}
@@ -295,12 +306,10 @@ func c02CLI(c *fw.Ctx, cs c02Case, text string, recs []sm.Record, o clidrv.Opts,
 	}
 }
 
-func c02Now(c *fw.Ctx, i int) {
-	d := docgen.Radix(i, len(c02NowDays), len(c02NowDays), len(c02NowStarts), len(c02NowClock), len(c02NowToday), 3)
+// c02NowDoc builds the F3 document for one digit vector (see c02Now).
+func c02NowDoc(d []int) string {
 	td := c02NowToday[d[4]]
 	today := sm.DayNumber(sm.Date{Y: td[0], M: td[1], D: td[2]})
-	clk := c02NowClock[d[3]]
-	nowMins := clk[0]*60 + clk[1]
 	mk := func(dayOff int, variant int) string {
 		dt := sm.DateLit{Date: sm.FromDayNumber(today + dayOff)}
 		switch variant {
@@ -311,7 +320,77 @@ func c02Now(c *fw.Ctx, i int) {
 		}
 		return dt.String() + "\n    2h\n" // no open range at all
 	}
-	text := mk(c02NowDays[d[0]], d[5]) + "\n" + mk(c02NowDays[d[1]], (d[5]+1)%3)
+	return mk(c02NowDays[d[0]], d[5]) + "\n" + mk(c02NowDays[d[1]], (d[5]+1)%3)
+}
+
+// c02Follow (F4): `klog today --now --diff --follow` keeps ONE context alive and re-evaluates on every refresh.
+// For a history of three refreshes - the clock advancing by 45 min and then 13 h (possibly past midnight), the file
+// either unchanged or swapped for another document and back - every refresh must show exactly what a fresh
+// one-shot `klog today --now --diff` shows for that file at that instant (differential oracle: state reached
+// through a history vs. state reached from the initial state).
+func c02Follow(c *fw.Ctx, i int) {
+	n := c02NowCount()
+	sched := i / n
+	d := docgen.Radix(i%n, len(c02NowDays), len(c02NowDays), len(c02NowStarts), len(c02NowClock), len(c02NowToday), 3)
+	td := c02NowToday[d[4]]
+	clk := c02NowClock[d[3]]
+	textA := c02NowDoc(d)
+	d2 := append([]int{}, d...)
+	d2[0], d2[1], d2[2], d2[5] = (d[0]+1)%len(c02NowDays), (d[1]+3)%len(c02NowDays), (d[2]+3)%len(c02NowStarts), (d[5]+1)%3
+	textB := c02NowDoc(d2)
+	t0 := dateAt(td[0], td[1], td[2], clk[0], clk[1])
+	ticks := []gotime.Time{t0, t0.Add(45 * gotime.Minute), t0.Add(13*gotime.Hour + 45*gotime.Minute)}
+	files := []string{textA, textA, textA}
+	if sched == 1 {
+		files = []string{textA, textB, textA}
+	}
+	cs := c02Case{Fam: "F4", I: i, Text: fw.Txt(textA), Now: t0.Format("2006-01-02 15:04")}
+	c.Eval(1)
+	c.Sample(func() any { return cs })
+	c.Nontrivial(fw.HashMix(fw.HashString(textA+textB), uint64(i)))
+	dir := fw.Scratch()
+	home := clidrv.Home("home")
+	path := filepath.Join(dir, "c02follow.klg")
+	mk := func(follow bool) *cli.Today {
+		return &cli.Today{DiffArgs: cliutil.DiffArgs{Diff: true}, NowArgs: cliutil.NowArgs{Now: true}, Follow: follow, InputFilesArgs: fileArgs(path)}
+	}
+	want := "\033[2J"
+	wantCode, wantErr := 0, ""
+	for k := range ticks {
+		clidrv.WriteFile(dir, "c02follow.klg", files[k])
+		r := clidrv.Exec(home, clidrv.Opts{Now: ticks[k]}, mk(false))
+		if r.Panicked {
+			c.Violation("panic:today:"+fw.PanicSite(r.Stack), cs, fmt.Sprintf("`klog today --now --diff` panicked at %s: %v\n%s", ticks[k].Format("2006-01-02 15:04"), r.PanicVal, r.Stack))
+			return
+		}
+		want += "\033[H\033[J" + r.Stdout + "\nPress ^C to exit\n"
+		if r.Code != 0 {
+			wantCode, wantErr = r.Code, r.Err
+			c.Count("follow_ends_with_error", 1)
+			break
+		}
+	}
+	clidrv.WriteFile(dir, "c02follow.klg", files[0])
+	r := clidrv.Exec(home, clidrv.Opts{Now: ticks[0], TickTimes: ticks, OnTick: func(k int) { clidrv.WriteFile(dir, "c02follow.klg", files[k]) }}, mk(true))
+	if r.Panicked {
+		c.Violation("panic:today-follow:"+fw.PanicSite(r.Stack), cs, fmt.Sprintf("`klog today --now --diff --follow` panicked: %v\n%s", r.PanicVal, r.Stack))
+		return
+	}
+	if r.Stdout != want || r.Code != wantCode || r.Err != wantErr {
+		c.Violation("follow-differs-from-one-shot", cs, fmt.Sprintf("`klog today --now --diff --follow` over refreshes at %s/+45m/+13h45m (file %s) printed (exit %d %s)\n%q\nbut one-shot runs at those instants print (exit %d %s)\n%q",
+			cs.Now, map[int]string{0: "unchanged", 1: "swapped for another document and back"}[sched], r.Code, r.Err, r.Stdout, wantCode, wantErr, want))
+		return
+	}
+	c.Outcome("follow-ok")
+}
+
+func c02Now(c *fw.Ctx, i int) {
+	d := docgen.Radix(i, len(c02NowDays), len(c02NowDays), len(c02NowStarts), len(c02NowClock), len(c02NowToday), 3)
+	td := c02NowToday[d[4]]
+	today := sm.DayNumber(sm.Date{Y: td[0], M: td[1], D: td[2]})
+	clk := c02NowClock[d[3]]
+	nowMins := clk[0]*60 + clk[1]
+	text := c02NowDoc(d)
 	now := dateAt(td[0], td[1], td[2], clk[0], clk[1])
 	cs := c02Case{Fam: "F3", I: i, Text: fw.Txt(text), Now: now.Format("2006-01-02 15:04")}
 	ref := sm.Parse(text)
